@@ -378,12 +378,17 @@ def degenerate_targets(ctx, pydsdl):
     try:
         os.chdir(base)
         (root / "loop").symlink_to("loop")
+        (base / "loop0").symlink_to("loop0")
         (root / "ping").symlink_to("pong")
         (root / "pong").symlink_to("ping")
         long = "a" * 300
         for tgt in ["", ".", "..", "/", "nsroot", "nsroot/", "nsroot/sub", "nsroot/.", "nsroot/..", "nsroot/Ok.1.0.dsdl/", "nsroot/Ok.1.0.dsdl/.", "./", "//",
                     "nsroot/loop/Foo.1.0.dsdl", "nsroot/ping/Foo.1.0.dsdl", "nsroot/loop", "nsroot/%s.1.0.dsdl" % long, "nsroot/%s/Foo.1.0.dsdl" % long,
-                    "nsroot/sub/" + "/".join(["d" * 200] * 30) + "/Foo.1.0.dsdl", "nsroot/Foo.1.0.dsdl\x00", "nsroot/\udc80.1.0.dsdl"]:
+                    "nsroot/sub/" + "/".join(["d" * 200] * 30) + "/Foo.1.0.dsdl", "nsroot/Foo.1.0.dsdl\x00", "nsroot/\udc80.1.0.dsdl",
+                    # the same defects in a DIRECTORY component of the target, and in its first component (which read_files takes for the root
+                    # when it is given no roots)
+                    "loop0/Foo.1.0.dsdl", "%s/Foo.1.0.dsdl" % long, "nsroot/x\x00/Foo.1.0.dsdl", "nsroot/x\x00y/Ok.1.0.dsdl", str(root) + "/x\x00y/Foo.1.0.dsdl",
+                    "nsroot/\ud800/Foo.1.0.dsdl", "n\x00s/Foo.1.0.dsdl", "\udc80/Foo.1.0.dsdl", "nsroot/sub/\x00/../Ok.1.0.dsdl"]:
             for roots in (["nsroot"], [], [root], ["."]):
                 ctx.mon("file-name")
                 case = {"degenerate_target": tgt, "roots": [str(r) for r in roots]}
